@@ -397,6 +397,10 @@ func c20(w *core.World, r *core.Report) {
 			}
 		}
 	}
+	r.Rule("R20.17", "the key-exists policy of every output configuration is copied from the option of that name", 1)
+	rulePolicyWiredByName(w, r)
+	r.Rule("R20.18", "the snapshot worker stops on the unit builder's error before it looks at 'skip'", 1)
+	ruleBuilderErrorBeforeSkip(w, r)
 }
 
 func pathHasSecondRestore(ev []rpEvent) bool {
